@@ -156,6 +156,13 @@ class Problem:
         # Variable and domain initialization
         self.dom_indices_arr = np.array(self.dom_indices_lst, dtype=np.uint16)
         self.dom_offsets_arr = np.array(self.dom_offsets_lst, dtype=np.int32)
+        # The bounds of the domains (offsets included) are stored and computed as 32-bit signed integers.
+        int32_info = np.iinfo(np.int32)
+        shr_domains = np.array(self.shr_domains_lst, dtype=np.int64).reshape((-1, 2))
+        domains = shr_domains[self.dom_indices_arr] + self.dom_offsets_arr.astype(np.int64).reshape((-1, 1))
+        for bounds in (shr_domains, domains):
+            if bounds.size > 0 and (bounds.min() < int32_info.min or bounds.max() > int32_info.max):
+                raise ValueError("The bounds of the domains (offsets included) should fit in 32-bit signed integers")
         # Propagator initialization
         self.algorithms = np.empty(self.propagator_nb, dtype=np.uint8)
         # We will store propagator specific data in a global arrays, we need to compute variables and data bounds.
